@@ -86,6 +86,9 @@ reg = {
         "tablens": {"overlay": "units/tablens.ovl", "canaries": ["canary_tablens"],
                     "helpers": ["caller", "get_root", "get", "insert", "remove", "is_empty", "get_or_create_table", "clear_pending_table_update",
                                 "rename_table", "delete_table", "stage_update_table_root", "set_root"]},
+        # the eviction loop of the write buffer over a ghost map (stripe) and a ghost log of accepted writes (backend)
+        "wbuf": {"overlay": "units/wbuf.ovl", "canaries": ["canary_wbuf"],
+                 "helpers": ["len", "pop_lowest_priority", "insert", "write", "write_best_effort", "fetch_sub"]},
         "types_sep": {"overlay": "units/types_sep.ovl", "canaries": ["canary_types_sep"], "helpers": ["common_prefix_len"]},
         # the page-level checksum walk over an abstract page store
         "merkle": {"overlay": "units/merkle.ovl", "canaries": ["canary_merkle"],
@@ -170,9 +173,11 @@ P["C20"] = {
 P["C08"] = {
     "level": "proof",
     "kani": [alias("C20-L1", "C08-K1"), alias("C20-L2a", "C08-K2")],
-    "verus": [{"unit": "alloc", "functions": ["TransactionalMemory::commit", "TransactionalMemory::non_durable_commit", "Mutex::lock", "drop"]}],
-    "assumptions": ["T9 (storage model of the alloc unit): every fallible PagedCachedFile entry point is refused without reaching the storage once the latch is set, sets the latch when it fails, and check_io_errors() reports exactly the latch - the latch itself is what the Kani harnesses C08-K1/K2 prove on the real CheckedBackend"],
-    "explanation": "Kernel: once any backend call has failed every later len/read/set_len/sync_data/write is refused without reaching the backend (one symbolic step from an arbitrary latch state = induction over call sequences of any length); (V) the REAL TransactionalMemory::commit and non_durable_commit consult the latch before anything else: with the latch set they return Err and change nothing (no event reaches the storage, no header is published, the unpersisted set is untouched), and non_durable_commit acknowledges (Ok) exactly when the latch is clear; write_best_effort neither sets nor bypasses the latch; PreviousIo vs DatabaseClosed by the closed flag; after close() nothing reaches the backend.",
+    "verus": [{"unit": "alloc", "functions": ["TransactionalMemory::commit", "TransactionalMemory::non_durable_commit", "Mutex::lock", "drop"]},
+              {"unit": "wbuf", "functions": ["PagedCachedFile::flush_lowest_priority", "PagedCachedFile::lemma_evict_step"]}],
+    "assumptions": ["W1 (wbuf unit): a stripe of the write buffer is the map offset -> page it holds (pop_lowest_priority removes and returns some entry or nothing, insert adds one), the backend is the log of the writes it accepted (a failing write or write_best_effort adds nothing); sizes: at most 2^28 pages of at most 2^28 bytes per stripe, 64-bit usize",
+                    "T9 (storage model of the alloc unit): every fallible PagedCachedFile entry point is refused without reaching the storage once the latch is set, sets the latch when it fails, and check_io_errors() reports exactly the latch - the latch itself is what the Kani harnesses C08-K1/K2 prove on the real CheckedBackend"],
+    "explanation": "Kernel: once any backend call has failed every later len/read/set_len/sync_data/write is refused without reaching the backend (one symbolic step from an arbitrary latch state = induction over call sequences of any length); (V) the REAL TransactionalMemory::commit and non_durable_commit consult the latch before anything else: with the latch set they return Err and change nothing (no event reaches the storage, no header is published, the unpersisted set is untouched), and non_durable_commit acknowledges (Ok) exactly when the latch is clear; (W) the REAL eviction loop of the write buffer (PagedCachedFile::flush_lowest_priority, both Required and BestEffort write-back): a buffered page leaves the write buffer only after the backend accepted exactly it, the pages still buffered are unchanged, nothing else reaches the backend, and when a write fails the page is back in the buffer and the error is returned - never swallowed; write_best_effort neither sets nor bypasses the latch; PreviousIo vs DatabaseClosed by the closed flag; after close() nothing reaches the backend.",
     "not_decided": "every failure index in every history; what begin_write / shutdown / WriteTransaction::commit_inner do with the latch; state after reopen; that callers above TransactionalMemory consult the latch",
 }
 P["C01"] = {
